@@ -11,12 +11,19 @@
 (*   hpick  p, r     ... and now chooses in the balancer it loaded (lb.ChooseServer(req)); r as in ch *)
 (*   age    b, d     the current balancer (round robin) was put into the state it has after          *)
 (*                   2^b - d selections; the next events are n `ch` (or one `batch`) on it           *)
-EXTENDS LoadBalance, Json, TLC, IOUtils
+(* Requests with several attempts (pool with a retry policy of cfg.att attempts, transport scripted  *)
+(* to fail; the request of p stays in flight while other events are recorded):                        *)
+(*   send   p, k, r, i   attempt i of p's request (key k) reached the transport for server r; for    *)
+(*                       i > 1: the attempt before it was answered with a failure just now           *)
+(*   nosrv  p, k, i      p's request ended with 503 'no server' after i attempts were sent (the      *)
+(*                       last of them answered with a failure just now), nothing more was sent        *)
+(*   done   p, o         p's request ended with the outcome of its last attempt                       *)
+EXTENDS LoadBalanceRetry, Json, TLC, IOUtils
 
 TLog == ndJsonDeserialize(IOEnv.VERIF_TRACE)
 
 VARIABLE l
-tvars == <<vars, l>>
+tvars == <<rvars, l>>
 
 ToSet(q) == {q[i] : i \in 1..Len(q)}
 IsEvent(e) == l <= Len(TLog) /\ TLog[l].ev = e /\ l' = l + 1
@@ -26,31 +33,44 @@ Fresh(c) ==
     /\ gen' = 1 /\ lst' = <<c.static>> /\ cnt' = <<[i \in Ids(c.static) |-> 0]>> /\ sticky' = <<NoKeys>>
     /\ pc' = [p \in Procs |-> "idle"] /\ key' = key /\ sg' = [p \in Procs |-> 1]
     /\ res' = [p \in Procs |-> NIL] /\ nsel' = 0 /\ last' = [a |-> "init"]
+    /\ att' = [p \in Procs |-> 0]
 
 TReset ==
     /\ IsEvent("reset")
-    /\ LET c == [policy |-> TLog[l].cfg.policy, static |-> ToSet(TLog[l].cfg.static), disc |-> TLog[l].cfg.disc]
-       IN Accepted(c) /\ Fresh(c)
+    /\ LET c == [policy |-> TLog[l].cfg.policy, static |-> ToSet(TLog[l].cfg.static), disc |-> TLog[l].cfg.disc,
+                att |-> TLog[l].cfg.att]
+       IN Accepted(c) /\ c.att >= 1 /\ Fresh(c)
 
-TRep == IsEvent("rep") /\ Replace(ToSet(TLog[l].insts))
+TRep == IsEvent("rep") /\ Replace(ToSet(TLog[l].insts)) /\ UNCHANGED att
 
 TCh ==
     /\ IsEvent("ch")
     /\ TLog[l].r \in Allowed(gen, TLog[l].k)
     /\ Effect(gen, TLog[l].k, TLog[l].r)
     /\ last' = [a |-> "ch", k |-> TLog[l].k, r |-> TLog[l].r]
-    /\ UNCHANGED <<cfg, gen, lst, pc, key, sg, res>>
+    /\ UNCHANGED <<cfg, gen, lst, pc, key, sg, res, att>>
 
 (*   batch  picks = <<[k, id, c]...>>   tally of a burst of selections by concurrent callers        *)
-TBatch == IsEvent("batch") /\ Batch(ToSet(TLog[l].picks))
+TBatch == IsEvent("batch") /\ Batch(ToSet(TLog[l].picks)) /\ UNCHANGED att
 
 (*   noage  why      the balancer has no server, or keeps no field that counts its selections: it     *)
 (*                   was not aged (the selections made on it to find that out follow as `ch`)          *)
-TSkip == IsEvent("noage") /\ UNCHANGED vars
+TSkip == IsEvent("noage") /\ UNCHANGED rvars
 
-THold == IsEvent("hold") /\ Hold(TLog[l].p, TLog[l].k)
+THold == IsEvent("hold") /\ Hold(TLog[l].p, TLog[l].k) /\ UNCHANGED att
 
-THPick == IsEvent("hpick") /\ HPickWith(TLog[l].p, TLog[l].r)
+THPick == IsEvent("hpick") /\ HPickWith(TLog[l].p, TLog[l].r) /\ UNCHANGED att
+
+(* attempts of a request: how many are made is not judged here (RetryAt, FinishAt: no bound) *)
+TSend ==
+    /\ IsEvent("send")
+    /\ LET e == TLog[l] IN
+         IF e.i = 1 THEN Start(e.p, e.k, e.r)
+                    ELSE pc[e.p] = "sent" /\ key[e.p] = e.k /\ att[e.p] + 1 = e.i /\ RetryAt(e.p, e.r)
+
+TNoSrv == IsEvent("nosrv") /\ att[TLog[l].p] = TLog[l].i /\ NoServerAt(TLog[l].p, TLog[l].k)
+
+TDone == IsEvent("done") /\ FinishAt(TLog[l].p, TLog[l].o)
 
 (* Which servers had had the extra selection (E) shows in what follows: the next n - |E| sequential *)
 (* selections of a fair balancer go to exactly the servers outside E.  The step takes that E; if    *)
@@ -77,6 +97,7 @@ TAge ==
            /\ \/ l + 1 <= Len(TLog) /\ TLog[l + 1].ev = "batch"
               \/ \A j \in (l + 1)..(l + n - r0) : j <= Len(TLog) /\ TLog[j].ev = "ch"
            /\ Age(TLog[l].b, TLog[l].d, E)
+    /\ UNCHANGED att
 
 (* an observation no contract step explains: report it, and go on with the next trace, so that   *)
 (* one run lists every rejected trace (the driver turns the report into the verdict)             *)
@@ -88,19 +109,22 @@ TBad ==
     /\ \/ TLog[l].ev = "ch" /\ TLog[l].r \notin Allowed(gen, TLog[l].k)
        \/ TLog[l].ev = "batch" /\ ~BatchOK(ToSet(TLog[l].picks))
        \/ TLog[l].ev = "hpick" /\ pc[TLog[l].p] = "pick" /\ SpanGens(TLog[l].p, TLog[l].r) = {}
+       \/ TLog[l].ev = "send" /\ (TLog[l].r = NIL \/ TLog[l].r \notin Allowed(gen, TLog[l].k))
+       \/ TLog[l].ev = "nosrv" /\ NIL \notin Allowed(gen, TLog[l].k)
     /\ PrintT(<<"VERIF_REJECT", l>>)
     /\ l' = NextReset(l)
-    /\ UNCHANGED vars
+    /\ UNCHANGED rvars
 
-TNext == TReset \/ TRep \/ TCh \/ TBatch \/ THold \/ THPick \/ TAge \/ TSkip \/ TBad
+TNext == TReset \/ TRep \/ TCh \/ TBatch \/ THold \/ THPick \/ TAge \/ TSkip \/ TSend \/ TNoSrv \/ TDone \/ TBad
 
 TInit ==
     /\ l = 1
-    /\ cfg = [policy |-> "any", static |-> {}, disc |-> TRUE]
+    /\ cfg = [policy |-> "any", static |-> {}, disc |-> TRUE, att |-> 1]
     /\ gen = 1 /\ lst = <<{}>> /\ cnt = <<<<>>>> /\ sticky = <<NoKeys>>
     /\ pc = [p \in Procs |-> "idle"] /\ key = [p \in Procs |-> CHOOSE k \in Keys : TRUE]
     /\ sg = [p \in Procs |-> 1] /\ res = [p \in Procs |-> NIL]
     /\ nsel = 0 /\ last = [a |-> "init"]
+    /\ att = [p \in Procs |-> 0]
 
 TSpec == TInit /\ [][TNext]_tvars
 
